@@ -595,7 +595,9 @@ fn run_load(ctx: &Ctx) {
                 Ok(o) => {
                     asm_ok.fetch_add(1, Relaxed);
                     // the assembler's own statement about externals, cross-checked with the source
-                    if has_external(&o) != (p.declares_external && debug) {
+                    // (since the repair of C21, `assemble` keeps the symbol table of a source that declares externals,
+                    // so the flag no longer depends on the debug mode)
+                    if has_external(&o) != p.declares_external {
                         ctx.fail("C29", "external_flag", format!("object built {} debug symbols from a source {} .external reports has_external={}",
                                  if debug { "with" } else { "without" }, if p.declares_external { "with" } else { "without" }, has_external(&o)), String::new());
                     }
